@@ -64,36 +64,6 @@ theorem b64_roundtrip (bs : Bytes) (h : IsBytes bs) : b64decode (b64encode bs) =
     rfl
 
 
-theorem replaceByte_cons (c : Nat) (r : Bytes) (x : Nat) (s : Bytes) :
-    replaceByte c r (x :: s) = (if x = c then r else [x]) ++ replaceByte c r s := by
-  simp [replaceByte]
-
-theorem replaceByte_append (c : Nat) (r : Bytes) (a b : Bytes) :
-    replaceByte c r (a ++ b) = replaceByte c r a ++ replaceByte c r b := by
-  simp [replaceByte]
-
-/-- The five successive replacements amount to one pass mapping each byte on its own. -/
-theorem htmlEscape_eq (s : Bytes) : htmlEscape s = s.flatMap escByte := by
-  induction s with
-  | nil => rfl
-  | cons x s ih =>
-    unfold htmlEscape at ih ⊢
-    rw [List.flatMap_cons, ← ih]
-    simp only [replaceByte_cons, replaceByte_append]
-    congr 1
-    unfold escByte
-    by_cases h1 : x = 38
-    · subst h1; decide
-    by_cases h2 : x = 60
-    · subst h2; decide
-    by_cases h3 : x = 62
-    · subst h3; decide
-    by_cases h4 : x = 34
-    · subst h4; decide
-    by_cases h5 : x = 39
-    · subst h5; decide
-    simp [h1, h2, h3, h4, h5, replaceByte]
-
 theorem unescGo_skip (p s : Bytes) : unescGo p.length (p ++ s) = unescGo 0 s := by
   induction p with
   | nil => rfl
